@@ -178,7 +178,7 @@ func TestC06Random(t *testing.T) {
 		case 0:
 			id := rapid.SampledFrom(nodeIDs).Draw(t, "n")
 			return model.Op{K: "regnode", N: id, NT: typeOf[id], CloseErr: rapid.IntRange(0, 5).Draw(t, "closeErr") == 0,
-				Pol: rapid.SampledFrom([]int{0, 0, 0, 1, 2}).Draw(t, "pol"), Shape: rapid.SampledFrom([]int{0, 0, 0, 1, 2, 3}).Draw(t, "shape"),
+				Pol: rapid.SampledFrom([]int{0, 0, 0, 1, 2}).Draw(t, "pol"), Shape: rapid.SampledFrom([]int{0, 0, 0, 1, 2, 3, 4}).Draw(t, "shape"),
 				Reuse: rapid.IntRange(0, 6).Draw(t, "reuse") == 0}
 		case 1:
 			inner := rapid.SliceOfN(rapid.SampledFrom([]string{"h", "h", "f", "g", "s"}), 0, 2).Draw(t, "inner")
